@@ -502,7 +502,7 @@ def single_ops(L, nrows, arr, mt, tier):
 
 def exhaustive_block(tier, flags):
     shapes = ([(1, 3, "AC-"), (1, 4, "A-"), (2, 3, "A-"), (3, 1, "A-")] if tier == "quick"
-              else [(1, 5, "AC-"), (2, 4, "A-"), (2, 3, "AC-"), (3, 3, "A-"), (3, 2, "AC-")])
+              else [(1, 4, "AC-"), (1, 5, "A-"), (2, 4, "A-"), (2, 3, "AC-"), (3, 3, "A-")])
     cases = []
     seen = set()
     for nrows, maxL, alpha in shapes:
@@ -601,6 +601,78 @@ def check_sub_alignment(rep, c, ir, stats):
         rep.violation("arr:get_sub_alignment" + (":negate_pos" if c["negate_pos"] else "") + (":negate_seqs" if c["negate_seqs"] else ""),
                       dict(case=c, expected_by_spec=exp or NONE, observed_impl=s,
                            broken="get_sub_alignment differs from selecting the rows / columns of the strings"))
+
+
+def sample_draw_cases(rng, n):
+    """sample() drawing its own locations: with_replacement x motif_length 1/2/3 x n (incl. the default n)"""
+    out = []
+    for k in range(n):
+        mt = rng.choice(["dna", "rna", "protein"])
+        m = [1, 2, 3][k % 3]
+        wr = (k // 3) % 2 == 0
+        L = rng.randint(m, 12)
+        nrows = rng.randint(1, 4)
+        rows = [(i, rand_string(rng, ALPHA[mt], L)) for i in range(nrows)]
+        pop = L // m
+        nn = rng.choice([None, None, 1, pop, rng.randint(1, pop), rng.randint(1, 2 * pop) if wr else rng.randint(1, pop)])
+        out.append(dict(moltype=mt, arr=False, rows=rows, ops=[], sample_draw=True, motif=m, n=nn, with_replacement=wr,
+                        seed=rng.randrange(2 ** 31), block="sample-draw"))
+    return out
+
+
+def check_sample_draw(rep, c, ir, stats):
+    """-> the Coq cases (explicit locations as actually drawn) to tie the results to the model"""
+    from collections import Counter
+
+    rows, m, wr = c["rows"], c["motif"], c["with_replacement"]
+    L = len(rows[0][1])
+    pop = L // m
+    n_eff = c["n"] or pop
+    in_blocks = Counter(tuple(s[j * m:(j + 1) * m] for _, s in rows) for j in range(pop))
+    derived = []
+    shape = ("with-replacement" if wr else "without-replacement") + f":motif{min(m, 2)}"
+    for cls in ("old", "arr"):
+        r = ir[cls]
+        stats["evals"] += 1
+        stats["ops"][f"{cls}:sample-draw"] = stats["ops"].get(f"{cls}:sample-draw", 0) + 1
+        bad = None
+        if "exc" in r:
+            bad = f"raised {r.get('cls')}: {r.get('msg')}"
+        else:
+            got = r["rows"]
+            if [i for i, _ in got] != [i for i, _ in rows]:
+                bad = "names differ"
+            elif any(len(s) != n_eff * m for _, s in got) or r["len"] != n_eff * m:
+                bad = f"rows are not n*motif_length = {n_eff * m} long"
+            else:
+                blocks = [tuple(s[k * m:(k + 1) * m] for _, s in got) for k in range(n_eff)]
+                cnt = Counter(blocks)
+                if any(b not in in_blocks for b in blocks):
+                    bad = "a sampled motif column is not a motif column of the input at a motif-aligned position"
+                elif not wr and any(cnt[b] > in_blocks[b] for b in cnt):
+                    bad = "sampling without replacement used a position twice"
+                elif not r["default_equals_wrapped"]:
+                    bad = "the same seed gave different samples (default generators vs the same generators wrapped)"
+                elif r["ro"]:
+                    bad = f"read-only methods differ from a rebuilt object: {r['ro']}"
+                else:
+                    draws = [x for x in r["rec"]]
+                    ok_args = all((d[0] == "randint" and d[1] == 0 and d[2] == pop and d[3] == n_eff) or
+                                  (d[0] == "permutation" and d[1] == pop) for d in draws) and len(draws) == 1
+                    if not ok_args:
+                        bad = f"locations are not drawn from the {pop} motif positions: {[d[:-1] for d in draws]}"
+        if bad:
+            stats["violations"] += 1
+            rep.violation(f"{cls}:sample-draw:{shape}", dict(case=c, observed_impl=r, broken=bad))
+            continue
+        locs = r["rec"][0][-1][:n_eff]
+        derived.append((cls, dict(moltype=c["moltype"], arr=cls == "arr", rows=rows, indep=True,
+                                  ops=[dict(op="sample", locs=locs, motif=m)]), r["rows"]))
+    if all("rows" in ir[k] for k in ("old", "arr")) and ir["old"]["rows"] != ir["arr"]["rows"]:
+        stats["violations"] += 1
+        rep.violation(f"classes-disagree:sample-draw:{shape}", dict(
+            case=c, observed_impl=ir, broken="the two classes sample different columns under the same seed"))
+    return derived
 
 
 # ------------------------------------------------------------------ comparison
@@ -848,13 +920,14 @@ def run(tier: str, seed: int) -> int:
             rep.violation("tables:" + mt, dict(broken="moltype constants differ from the ones given to the model", observed_impl=t),
                           no_input=True)
     proof_broken = bool(pr["problems"])
-    nrand = (400 if tier == "quick" else 12000) * (3 if proof_broken else 1)
+    nrand = (400 if tier == "quick" else 8000) * (3 if proof_broken else 1)
     cases = corpus(flags) + exhaustive_block(tier, flags) + [random_case(rng, flags) for _ in range(nrand)]
     newc = new_collection_cases(rng, 60 if tier == "quick" else 1500)
     subc = sub_alignment_cases(rng, 60 if tier == "quick" else 1500)
+    drawc = sample_draw_cases(rng, 60 if tier == "quick" else 1200)
     import time
     t0 = time.time()
-    impl = run_impl_balanced(cases + newc + subc)
+    impl = run_impl_balanced(cases + newc + subc + drawc)
     t1 = time.time()
     model = None
     try:
@@ -872,8 +945,19 @@ def run(tier: str, seed: int) -> int:
         check_new_collection(rep, c, ir, stats)
     for c, ir in zip(subc, impl[len(cases) + len(newc):]):
         check_sub_alignment(rep, c, ir, stats)
+    derived = []
+    for c, ir in zip(drawc, impl[len(cases) + len(newc) + len(subc):]):
+        derived += check_sample_draw(rep, c, ir, stats)
+    if derived and model is not None:
+        # the samples actually drawn, replayed through the model with explicit locations
+        dm = run_model([d[1] for d in derived], flags)
+        for (cls, dc, got), mr in zip(derived, dm):
+            mobs = model_ids(mr[1][0], "obs") if isinstance(mr, list) and len(mr) == 4 else mr
+            mrows = None if isinstance(mobs, Exc) or mobs is None else [r[:2] for r in mobs[2]]
+            if mrows != got:
+                disagreements.append(dict(key=f"{cls}:sample-draw", case=dc, observed_impl=got, model_output=mrows))
     blocks = {}
-    for c in cases + newc + subc:
+    for c in cases + newc + subc + drawc:
         blocks[c["block"]] = blocks.get(c["block"], 0) + 1
     sample_case = next(c for c in cases if c["block"] == "random")
     rep.coverage.update(
@@ -882,7 +966,7 @@ def run(tier: str, seed: int) -> int:
              "and sequence, read-only methods against a rebuilt object); non-trivial = the alignment has a row with both a gap and "
              "a residue and the operation yields a non-empty alignment that differs from it",
         samples=[dict(case=sample_case)],
-        input_distribution=dict(cases=len(cases) + len(newc) + len(subc), blocks=blocks, ops=stats["ops"], oracle_silent_steps=stats["silent"]),
+        input_distribution=dict(cases=len(cases) + len(newc) + len(subc) + len(drawc), blocks=blocks, ops=stats["ops"], oracle_silent_steps=stats["silent"]),
         model_impl_disagreements=stats["disagree"], spec_violations=stats["violations"],
         variant={n: ("repaired" if f else "pinned") for n, f in zip(FLAG_NAMES, flags)},
         partial=PARTIAL, exhaustive=False,
@@ -924,7 +1008,16 @@ def replay(path: str) -> int:
         return 1
     c = d["case"]
     ir = core.run_impl_lines("c03_impl.py", [c])[0]
-    if c.get("sub_alignment"):
+    if c.get("sample_draw"):
+        print("impl  :", ir)
+        rep = core.Report(PROP, "replay", 0)
+        rep.findings = []
+        stats = dict(evals=0, violations=0, ops={})
+        import io, contextlib
+        with contextlib.redirect_stdout(io.StringIO()):
+            check_sample_draw(rep, c, ir, stats)
+        bad = bool(stats["violations"])
+    elif c.get("sub_alignment"):
         print("impl  :", ir)
         rep = core.Report(PROP, "replay", 0)
         rep.findings = []
